@@ -17,14 +17,15 @@ TRUSTED = ["hand-written models lean/Mpir/Model/PowmLimb.lean: mpn_redc_n statem
            "mulmod_bnm1 residue, the subtraction that rebuilds the wrapped limbs, MPN_DECR_U, final subtraction / add-back); "
            "mpn_powm on memory (rp, the caller's tp, the table pp as a list of n-limb entries with the limb-range check "
            "n*i + n <= n << (w-1)); mpn_powlo on memory (tp of 3n limbs, pp with the spare n limbs, both halves of every mullow stored); tied by the ops mpn_redc_n_l, mpn_powm_m, mpn_powlo_m (exact) and mpn_powm_fp (result + measured footprint)"]
-ASSUMPTIONS = ["mpn_mulmod_bnm1 is replaced by 'some residue of x*m modulo B^rn - 1 in rn limbs, 0 for the product 0' (theorem: every "
-               "such residue; executable model: the least one); mpn_mullow_n / mpn_mul_n / mpn_sqr / mpn_tdiv_qr (redcify) / mpn_binvert "
+ASSUMPTIONS = ["in THIS part mpn_mulmod_bnm1 is 'some residue of x*m modulo B^rn - 1 in rn limbs, 0 for the product 0' (theorem: every "
+               "such residue; executable model: the least one) - part c08_mm1 proves that the real mpn_mulmod_bnm1 is such a residue "
+               "(mpn_mulmod_bnm1_val, redc_n_unconditional, reduceLR_eq); mpn_mullow_n / mpn_mul_n / mpn_sqr / mpn_tdiv_qr (redcify) / mpn_binvert "
                "by their mathematical meaning (C01/C02; binvert: Powm.binvert_correct); mpn_binvert's use of tp is charged as "
                "mpn_binvert_itch(n) limbs",
                "redc_n theorems take n <= rn < 2n for rn = mpn_mulmod_bnm1_next_size(n) as hypotheses (mulmod_bnm1's ASSERT and "
-               "redc_n's ASSERT_ALWAYS); rn = n for n <= 2*FFT_MULMOD_2EXPP1_CUTOFF",
-               "mpn_redc_2 (built, but not selected by mpn_powm in this build: no native addmul_2, WANT_REDC_2 undefined) keeps its "
-               "limb-level model and differential run only; mpz_powm_ui keeps the size-aware value-level theorem of c08_powm (powm_ui_spec)"]
+               "redc_n's ASSERT_ALWAYS); discharged for every n by next_size_bounds of part c08_mm1",
+               "mpn_redc_2 (built, but not selected by mpn_powm in this build: no native addmul_2, WANT_REDC_2 undefined): part c08_redc2; "
+               "mpz_powm_ui at the memory level: part c08_powmui"]
 RULE = ("redc_n: n at +-2 of 9, of REDC_1_TO_REDC_N_THRESHOLD and of 2*FFT_MULMOD_2EXPP1_CUTOFF (rn > n beyond it); inputs built "
         "backwards from x and m: products whose limbs k..rn are all ones with a wrapped part that carries (borrow ripples through "
         "zero limbs), residue class of 0 (m | B^rn - 1), U = (m-1)B^n + B^n - 1, U = 0, U < B^n, moduli B^n - 1, B^n/2 + 1, all ones; "
